@@ -209,13 +209,30 @@ fn edit_history_script(rng: &mut SplitMix, thorough: bool) -> NucleoScript {
     let items: Vec<Vec<String>> = (0..n_items)
         .map(|_| (0..columns).map(|_| if !pool.is_empty() && rng.below(2) == 0 { pick(rng, &pool) } else { rstr(rng, ITEM_ALPHA, 0, 6) }).collect())
         .collect();
+    let mut items = items;
+    if rng.below(40) == 0 && !pool.is_empty() {
+        // "long twins": the same short text followed by paddings of very different, very large
+        // lengths (around and above 65535): equal scores, so only the total-length tie-break
+        // orders them — longest first in index order
+        let head = pick(rng, &pool);
+        for pad in [70_000usize, 65_540, 65_530, 300] {
+            let mut cols: Vec<String> = (0..columns).map(|_| String::new()).collect();
+            cols[0] = format!("{head}{}", "x".repeat(pad));
+            items.push(cols);
+        }
+    }
     let writers = vec![vec![WOp::Extend { items, lie: Lie::Honest, panic_at: None }]];
     let mut ui = vec![UiOp::Spawn { w: 0, h: 0, move_handle: true }];
     if rng.below(2) == 0 {
         ui.push(UiOp::Quiesce);
     }
     for (k, (c, t)) in plan.into_iter().enumerate() {
-        ui.push(UiOp::Reparse { col: c as u32, text: t });
+        if rng.below(8) == 0 {
+            // the user toggles case sensitivity / normalisation, possibly without touching the text
+            ui.push(UiOp::ReparseOpts { col: c as u32, text: t, case: rng.below(3) as u8, norm: rng.below(2) as u8 });
+        } else {
+            ui.push(UiOp::Reparse { col: c as u32, text: t });
+        }
         // mostly settle after every edit; sometimes let two edits share a tick, or tick without waiting
         match rng.below(8) {
             0 => {}
@@ -295,7 +312,11 @@ pub fn nucleo_script(rng: &mut SplitMix, focus: &str, thorough: bool) -> NucleoS
             }
             4 => {
                 let (c, t) = edit_plan.next().expect("one planned edit per op");
-                UiOp::Reparse { col: c as u32, text: t }
+                if rng.below(10) == 0 {
+                    UiOp::ReparseOpts { col: c as u32, text: t, case: rng.below(3) as u8, norm: rng.below(2) as u8 }
+                } else {
+                    UiOp::Reparse { col: c as u32, text: t }
+                }
             }
             5 => UiOp::Tick { timeout: pick(rng, &[0u64, 0, 1, 10, 50]) },
             6 => UiOp::TickUntilIdle { max: 6 },
